@@ -10,8 +10,8 @@ import (
 	"sort"
 	"strings"
 
-	abci "github.com/cometbft/cometbft/abci/types"
 	storetypes "cosmossdk.io/store/types"
+	abci "github.com/cometbft/cometbft/abci/types"
 	sdk "github.com/cosmos/cosmos-sdk/types"
 
 	packettypes "github.com/bianjieai/tibc-go/modules/tibc/core/04-packet/types"
